@@ -25,7 +25,6 @@ import enum
 import math
 import pickle
 import random
-import sys
 import warnings
 
 import torch
@@ -34,7 +33,8 @@ import vlib
 from vlib import Family
 
 LEVEL = 'proof'
-RULE = ('Seeded call histories (quick: length 3-8, thorough: up to 15) on real mrpro objects built in memory: linear operators '
+RULE = ('Seeded call histories (quick: 284 histories of length 3-8, thorough: 6600 of length up to 15; 35% end with a verbatim '
+        'repeat of an earlier call) on real mrpro objects built in memory: linear operators '
         '(EinsumOp, FastFourierOp, FourierOp Cartesian/radial, CartesianSamplingOp, ZeroPadOp, FiniteDifferenceOp, WaveletOp, '
         'SensitivityOp, DensityCompensationOp, GridSamplingOp, SliceProjectionOp, PCACompressionOp, IdentityOp, RearrangeOp and '
         'scalar/tensor multiples, sums, compositions, adjoints, gram), non-linear operators and signal models, functionals '
@@ -43,7 +43,8 @@ RULE = ('Seeded call histories (quick: length 3-8, thorough: up to 15) on real m
         'are plain, sliced/transposed views of a larger base, or expanded (stride 0) tensors of interleaved shapes and dtypes. '
         'After every call: all caller-owned tensors (values, _version, requires_grad, grad), the state of the object under '
         'test and all caller-owned data objects are compared with a snapshot taken before the call, and the result is compared '
-        'with the result of the same call on a freshly built instance. Non-trivial = history of >= 2 calls with two different '
+        'with the result of the same call on a freshly built instance (and with the first result when a call is repeated). '
+        'A call that raises is no finding when the fresh instance raises alike. Non-trivial = history of >= 2 calls with two different '
         'calls or argument kinds; distinct by case hash. A harness crash ({"raises": ...}) is not a finding and is counted '
         'under impl_raises in input_distribution (expected: 0).')
 TRUSTED_BASE = ['dynamic monitor harness/props/C10.py: snapshot/compare of tensors (values, Tensor._version), module state and data objects',
@@ -74,6 +75,17 @@ def translate(ctx):
         ctx.notes.append(f'effects translator failed closed ({why}); C10 rests on the dynamic monitor alone in this run')
         return
     _BAD_SITES = list((info or {}).get('bad_sites', []))
+    cov = ctx.extra.setdefault('coverage', {})
+    cov['effect_sites'] = {'n_sites': info.get('n_sites'), 'n_files': info.get('n_files'), 'by_kind': info.get('by_kind'),
+                           'by_origin': info.get('by_origin'), 'unused_allow': info.get('unused_allow')}
+    for e in info.get('unused_allow') or []:
+        ctx.problem('proof', 'effects_inventory', None, f'allow-list entry matches no in-place site any more (remove it): {e}')
+    # allow-list entries marked "open-finding" are genuine purity violations kept only until the code is repaired:
+    # they are reported on every run and must be covered by an open entry of known_findings.json
+    for site in info.get('open_findings') or []:
+        d = {k: site.get(k) for k in ('module', 'function', 'kind', 'target', 'origin', 'line')}
+        ctx.problem('property', 'effects_inventory', d,
+                    f'in-place write on a caller-visible object (allow-list status open-finding): {d}', d)
     ctx.obligations += 2
     rc, so, se = vlib.coqc_file(out)
     if rc == 0:
@@ -712,7 +724,7 @@ def other_dt(rng, dt, p=0.3):
 
 LIN_CALLS = ['forward', 'forward', 'adjoint', 'adjoint', 'H_forward', 'H_adjoint', 'gram', 'H_gram', 'operator_norm']
 WRAPS = ['none', 'none', 'none', 'scalar_left', 'scalar_right', 'tensor_left', 'tensor_right', 'sum_self', 'normal', 'adj',
-         'sum_identity_scaled']
+         'sum_identity_scaled', 'compose', 'sum_compose']
 
 
 def lin_gen_call(rng, cfg, dt, tier):
@@ -756,6 +768,11 @@ def _wrap(op, cfg, seed, own, dt):
         return op.H, 'swap'
     if w == 'sum_identity_scaled':
         return op.gram + 0.25 * ops.IdentityOp(), 'dom'
+    if w == 'compose':  # A @ B with B a tensor multiple of the identity (B's tensor is caller-owned)
+        t = own('wrap.scalar_tensor', _rnd([], dt, g, 1, 6))
+        return op @ (t * ops.IdentityOp()), 'same'
+    if w == 'sum_compose':  # A + A @ B
+        return op + op @ (2.0 * ops.IdentityOp()), 'same'
     return op, 'same'
 
 
